@@ -659,3 +659,90 @@ class Interp:
         if b[0] == "agg" and b[2] in ("Ok", "Continue", "Some") and kind == "err":
             return NEVER
         return self._payload(kind, b)
+
+
+# ---------------------------------------------------------------------------
+# generic child mapping + inlining of small private helper functions
+
+def map_children(e, f, payload=None):
+    """Rebuild node e with f applied to its child expressions (smart constructors re-simplify)."""
+    k = e[0]
+    if k == "ref":
+        return ("ref", f(e[1]), e[2])
+    if k == "deref":
+        return mk_deref(f(e[1]))
+    if k == "field":
+        return mk_field(f(e[1]), e[2], e[3])
+    if k == "tfield":
+        return mk_tfield(f(e[1]), e[2])
+    if k == "downcast":
+        return ("downcast", f(e[1]), e[2])
+    if k in ("ok", "err", "some"):
+        b = f(e[1])
+        return payload(k, b) if payload else (k, b)
+    if k == "discr":
+        return ("discr", f(e[1]))
+    if k == "mutlocal":
+        return ("mutlocal", e[1], f(e[2]))
+    if k == "call":
+        return ("call", e[1], e[2], [f(a) for a in e[3]])
+    if k == "agg":
+        return ("agg", e[1], e[2], [f(a) for a in e[3]], e[4])
+    if k in ("tuple", "array", "phi"):
+        return (k, [f(a) for a in e[1]])
+    if k == "closure":
+        return ("closure", e[1], [f(a) for a in e[2]])
+    if k == "binop":
+        return ("binop", e[1], f(e[2]), f(e[3]), e[4] if len(e) > 4 else None)
+    if k == "unop":
+        return ("unop", e[1], f(e[2]))
+    if k == "cast":
+        return ("cast", e[1], f(e[2]), e[3], e[4] if len(e) > 4 else None)
+    if k == "index":
+        return ("index", f(e[1]), f(e[2]))
+    if k == "repeat":
+        return ("repeat", f(e[1]), e[2])
+    return e
+
+
+def _inlinable(prog, c):
+    if c is None or not c.local or c.kind not in ("Item",):
+        return None
+    b = prog.bodies.get(c.path)
+    if b is None or b.kind == "Closure" or b.derived:
+        return None
+    if b.j.get("pub"):
+        return None
+    pi = b.parent_impl or {}
+    if "nom_derive::Parse" in pi.get("trait", "") or c.path.endswith(("::parse_be", "::parse_le")):
+        return None
+    if b.nblocks > 80 or b.sccs():
+        return None
+    return b
+
+
+def _inline(self, e, memo=None, depth=0, stack=()):
+    """Replace calls to small, loop-free, private crate helpers by their return expression (arguments
+    substituted), so that extracting / inlining such a helper does not change what a rule sees."""
+    if memo is None:
+        memo = {}
+    key = id(e)
+    if key in memo:
+        return memo[key]
+    memo[key] = e
+    f = lambda x: _inline(self, x, memo, depth, stack)
+    out = map_children(e, f, self._through)
+    if out[0] == "call" and depth < 6:
+        c = out[2]
+        b = _inlinable(self.prog, c)
+        if b is not None and c.path not in stack and len(out[3]) == b.arg_count:
+            ret = self.ret_expr(c.path)
+            if ret is not None:
+                mapping = {i + 1: a for i, a in enumerate(out[3])}
+                body = self.simplify(self.subst(ret, mapping))
+                out = _inline(self, body, None, depth + 1, stack + (c.path,))
+    memo[key] = out
+    return out
+
+
+Interp.inline = _inline
